@@ -300,8 +300,9 @@ func (n *NodeProcessor) SendWrite() (int, error) {
 			if verifhook.Enabled {
 				verifhook.Yield("hh.sendwrite.eof")
 			}
-			// Try to skip it.
-			if err := n.queue.Advance(); err != nil {
+			// Nothing to read: drop the segment if it is exhausted. A write may
+			// have been queued since Current returned, so nothing is skipped.
+			if err := n.queue.TrimExhausted(); err != nil {
 				n.Logger.Error("Failed to advance queue", zap.Uint64("node", n.nodeID), zap.Uint64("shardID", n.shardID), zap.Error(err))
 			}
 		}
